@@ -108,7 +108,7 @@ _p('C16', ['r_visit'],
    'resumption point, child sequences scheduled for every owner, start/end events once per sequence.',
    not_decided='program-order of events across nested sequences as a whole (argued from the resumption discipline, not '
                'executed); absence of recursion is decided by R-NOREC')
-PROPERTIES['C06']['rules'] = ['r_edges', 'r_visit', 'r_segments', 'r_pushpair']
+PROPERTIES['C06']['rules'] = ['r_edges', 'r_visit', 'r_segments', 'r_pushpair', 'r_sweep']
 
 _p('C04', ['r_flow'],
    'Attribute flow through the entity records: each section parser and each section emitter is evaluated symbolically, '
@@ -134,7 +134,7 @@ _p('C05', ['r_validate', 'r_features', 'r_table', 'r_norec', 'r_control'],
    'decode arm (R-TABLE); no call cycle is reachable from parse (R-NOREC), so nesting depth cannot grow the call stack.',
    not_decided='termination / absence of hangs (bounded by input length, argued not checked); exactness of wasmparser itself; '
                'panics inside wasmparser/gimli')
-_p('C02', ['r_emitorder', 'r_edges', 'r_visit', 'r_norec', 'r_segments', 'r_flow', 'r_table', 'r_control', 'r_pushpair'],
+_p('C02', ['r_emitorder', 'r_edges', 'r_visit', 'r_norec', 'r_segments', 'r_flow', 'r_table', 'r_control', 'r_pushpair', 'r_encform'],
    'Every emitted entity gets its index unconditionally (R-PUSHPAIR: one index per appended item; data indices assigned '
    'whether or not a DataCount section is written).  Validity is decided as preservation: the input was accepted by the validator (C05), so an output that is the input up to '
    'consistent renumbering is accepted too.  The type-carrying parts of that isomorphism are checked structurally: every '
@@ -161,7 +161,7 @@ _p('C17', ['r_arena'],
    'id-arena itself has no removal API (ids are never recycled).',
    not_decided='behaviour over concrete operation histories (not executed); iteration order is id-arena\'s (append order, trusted)')
 
-_p('C18', ['r_effects', 'r_emitorder'],
+_p('C18', ['r_effects', 'r_emitorder', 'r_pushpair'],
    'Effect analysis of the two replacement edits: each is evaluated with nothing inlined, so the trace of a successful world '
    'is the complete list of its effects on the module. replace_imported_func must return its own id, delete exactly the '
    'import found by get_imported_func(fid) (by id), store only funcs[fid].kind, and build with the (params, results) of '
@@ -169,7 +169,7 @@ _p('C18', ['r_effects', 'r_emitorder'],
    'get_exported_func(fid), delete nothing and leave the original untouched. Validity of the result rests on R-EMITORDER.',
    not_decided='that the user-supplied body is well typed; behaviour of callers at run time')
 
-_p('C08', ['r_nondet', 'r_restore', 'r_emitorder', 'r_cache', 'r_gates', 'r_customs'],
+_p('C08', ['r_nondet', 'r_restore', 'r_emitorder', 'r_cache', 'r_gates', 'r_customs', 'r_encform'],
    'Sources of nondeterminism and of state change are excluded structurally: no iteration over a RandomState hash container '
    'anywhere in the crate; every IdHash iteration reachable from emit_wasm ends in an order-insensitive sink or is collected '
    'and sorted by a total key; emit_wasm restores every field it moves out of the module and all other access during emit is '
@@ -197,7 +197,7 @@ _p('C19', ['r_pushpair', 'r_emitorder', 'r_flow', 'r_segments'],
    'emit-time map is handed to custom sections only after every standard section assigned its indices (R-EMITORDER); '
    'R-FLOW/R-FLOW-SEG show that lookups go through the space of the referenced kind.',
    not_decided='the numeric value of indices for a concrete module (follows from the pairing; not executed)')
-_p('C20', ['r_encform', 'r_control', 'r_table', 'r_segments', 'r_validate'],
+_p('C20', ['r_encform', 'r_control', 'r_table', 'r_segments', 'r_validate', 'r_flow'],
    'No feature escalation: the DataCount section is emitted only for passive segments or memory.init/data.drop users '
    '(the accumulated flag must be is_passive() only); active element segments for table 0 use the MVP encoding; block types '
    'written in the compact form stay compact (R-CONTROL form obligations) and every operator is re-emitted as itself with its '
